@@ -202,7 +202,9 @@ func refersTo(repo *repository, iter descIter, digest ociregistry.Digest) (found
 			if b == nil {
 				break
 			}
-			miter, err := manifestReferences(info.desc.MediaType, b.data)
+			// Use the media type that the manifest is stored (and served) with
+			// rather than the one claimed by the referring descriptor.
+			miter, err := manifestReferences(b.mediaType, b.data)
 			if err != nil {
 				retErr = err
 				return false
